@@ -797,6 +797,10 @@ func newHandlerCallStruct(
 		// support field handlers
 		if !method.IsValid() {
 			method = h.methods.Elem().FieldByName(methodName)
+			// an optional handler field which was left empty
+			if method.IsValid() && method.Kind() == reflect.Func && method.IsNil() {
+				method = reflect.Value{}
+			}
 		}
 		if !method.IsValid() {
 			h.missingCache[methodName] = struct{}{}
